@@ -19,6 +19,7 @@ package main
 import (
 	"fmt"
 	"os"
+	"strconv"
 	"time"
 
 	glog "github.com/dappledger/AnnChain/gemmill/modules/go-log"
@@ -56,7 +57,11 @@ func main() {
 	}
 
 	// (a) round trip
-	perType := lib.Pick(1200, 15000)
+	scale := 100
+	if s, err := strconv.Atoi(os.Getenv("VERIF_C18_SCALE")); err == nil && s > 0 {
+		scale = s // debugging only
+	}
+	perType := lib.Pick(1200, 15000) * scale / 100
 	for _, w0 := range wireTypes {
 		w := w0
 		n := perType
